@@ -66,6 +66,8 @@ var authzKinds = []string{
 	"bearer-jwt-hs256-keyed-with-public-key", "bearer-jwt-hs512-random-secret", "bearer-jwt-rs256-header-on-ec-signature", "bearer-jwt-unknown-kid",
 	// a correctly signed token which does not name its issuer: found, and not acceptable for anybody expecting an issuer
 	"bearer-jwt-noiss",
+	// credentials of the expected scheme with white space inside of them: found, and not acceptable
+	"basic-wrongpw-inner-space", "bearer-opaque-inner-space",
 }
 
 func mintJWT(kind string) string {
@@ -135,6 +137,10 @@ func authzHeader(kind string) (string, bool) {
 		return "Basic !!!not-base64!!!", true
 	case "basic-nocolon":
 		return b("alicesecret"), true
+	case "basic-wrongpw-inner-space":
+		return b("alice:wrong") + " ==", true
+	case "bearer-opaque-inner-space":
+		return "Bearer opaque-valid as well", true
 	case "bearer-opaque-valid":
 		return "Bearer opaque-valid", true
 	case "bearer-opaque-inactive":
